@@ -340,6 +340,20 @@ class Translator:
                 return False
         return saw_param
 
+    def guarded_delete(self, st):
+        t = st.test
+        if st.orelse or len(st.body) != 1 or not isinstance(st.body[0], ast.Delete):
+            return None
+        if not (isinstance(t, ast.Call) and isinstance(t.func, ast.Name) and t.func.id == "hasattr"
+                and len(t.args) == 2 and isinstance(t.args[0], ast.Name) and t.args[0].id == "self"
+                and isinstance(t.args[1], ast.Constant) and isinstance(t.args[1].value, str)):
+            return None
+        a = t.args[1].value
+        tg = st.body[0].targets
+        if len(tg) == 1 and self.attr_chain(tg[0]) == ("self", a) and a not in self.params:
+            return a
+        return None
+
     def has_call(self, node):
         return node is not None and any(isinstance(n, ast.Call) for n in ast.walk(node))
 
@@ -801,6 +815,10 @@ class Translator:
             return seq(out)
         if isinstance(st, (ast.Break, ast.Continue)):
             return ("brk",)
+        if isinstance(st, ast.If) and self.guarded_delete(st) is not None:
+            # idiom `if hasattr(self, "a"): del self.a` : afterwards the attribute is absent whatever
+            # an earlier call left there, and nothing else depends on the test
+            return ("atom", ("dattr", self.guarded_delete(st), "if-present"))
         if isinstance(st, ast.If):
             pre = self.expr_effects(st.test, env, depth, ctx)
             cond = ("rattr", self.reads(st.test)) if self.reads(st.test) else ("nop",)
